@@ -578,7 +578,7 @@ func (ck checker) runFrame(nf namedFrame) {
 		if !f.Header.Flags.Contains(primitive.HeaderFlagCompressed) {
 			c.Fatal("frame %s: SetCompress(true) did not set the flag", nf.name)
 		}
-		cd := frame.NewCodecWithCompression(ba.comp)
+		cd := frame.NewRawCodecWithCompression(ba.comp)
 		var enc bytes.Buffer
 		var eerr error
 		pan, pv := mon.Guard(func() { eerr = cd.EncodeFrame(f, &enc) })
@@ -628,6 +628,43 @@ func (ck checker) runFrame(nf namedFrame) {
 					d2.What, d2.Err = "a compressed frame that decodes from a bytes.Reader does not decode (to the same content) from this kind of source", fmt.Sprint(pv2, e2)
 					c.Violation("frame/"+ba.name+"/decode/"+cls+"/only-via="+sk.name, d2)
 				}
+			}
+		}
+		if own == "ok" {
+			// two compressed frames back to back in a *bytes.Buffer (the source type the compressors
+			// special-case): each decodes to the same content and consumes exactly its own bytes
+			two := bytes.NewBuffer(append(append([]byte{}, enc.Bytes()...), enc.Bytes()...))
+			for k := 0; k < 2; k++ {
+				var g3 *frame.Frame
+				var e3 error
+				p3, pv3 := mon.Guard(func() { g3, e3 = cd.DecodeFrame(two) })
+				c.Eval(1)
+				if p3 || e3 != nil || !sameContent(want, g3) || two.Len() != (1-k)*enc.Len() {
+					d2 := d
+					d2.Via = "*bytes.Buffer holding two frames"
+					d2.What = fmt.Sprintf("frame %d of two identical compressed frames in one *bytes.Buffer: error/panic %v %v, same content %v, bytes left %d (want %d)",
+						k+1, pv3, e3, e3 == nil && !p3 && sameContent(want, g3), two.Len(), (1-k)*enc.Len())
+					c.Violation("frame/"+ba.name+"/decode/"+cls+"/two-frames-in-one-bytes.Buffer", d2)
+					break
+				}
+			}
+			// the raw route a proxy takes, without touching the wire: ConvertToRawFrame then ConvertFromRawFrame
+			f4 := nf.mk()
+			f4.SetCompress(true)
+			var g4 *frame.Frame
+			var e4 error
+			p4, pv4 := mon.Guard(func() {
+				var raw *frame.RawFrame
+				if raw, e4 = cd.ConvertToRawFrame(f4); e4 == nil {
+					g4, e4 = cd.ConvertFromRawFrame(raw)
+				}
+			})
+			c.Eval(1)
+			if p4 || e4 != nil || !sameContent(want, g4) {
+				d2 := d
+				d2.Via = "ConvertToRawFrame+ConvertFromRawFrame"
+				d2.What, d2.Err = "a frame converted to raw form with compression and back does not have the content of the same frame without compression", fmt.Sprint(pv4, e4)
+				c.Violation("frame/"+ba.name+"/convert/"+cls, d2)
 			}
 		}
 		if rerr != nil {
@@ -927,6 +964,11 @@ func (ck checker) framesAndSegments() {
 	}
 	rnd := enc(frame.NewFrame(v5, 4, &message.AuthResponse{Token: segref.Content(segref.Random, 100000, mon.NewRand(c.Seed, 1<<52))}))
 	segs = append(segs, sp{"envelope-random-token", rnd, true})
+	// incompressible payloads at and just below the segment limit: the LZ4 block is longer than the payload
+	// (and than the 17-bit length field allows), the fallback form must carry them
+	for _, n := range []int{segref.MaxPayload, segref.MaxPayload - 1, segref.MaxPayload - 300, 130560} {
+		segs = append(segs, sp{fmt.Sprintf("incompressible-%d", n), segref.Content(segref.Random, n, mon.NewRand(c.Seed, 1<<54+uint64(n))), n%2 == 1})
+	}
 	win := enc(rowsFrame(v5, [][]byte{segref.Content(segref.Window64K, 120000, mon.NewRand(c.Seed, 1<<53))}, 1))
 	segs = append(segs, sp{"envelope-window64k-cell", win, true})
 	segs = append(segs, sp{"empty-payload", []byte{}, true})
